@@ -101,6 +101,7 @@ impl LocalReceiverLinkAcceptor {
         r is Ok && self.credit_mode is Auto ==> r->Ok_0.outgoing.granted() == outgoing.granted().push(self.credit_mode->Auto_0),   // [C09.attach.auto-mode-issues-its-credit] (listener)
         r is Ok && self.credit_mode is Manual ==> r->Ok_0.outgoing.granted() == outgoing.granted(),
         r is Ok ==> r->Ok_0.credit_mode == self.credit_mode && r->Ok_0.auto_accept == self.auto_accept && r->Ok_0.incomplete_transfer is None,
+        r is Ok ==> r->Ok_0.link.flow_state.init().link_credit == 0 && !r->Ok_0.link.flow_state.init().drain && r->Ok_0.link.flow_state.init().available == 0,       // [C09.wiring.initial-flow-state] (listener) a receiving link the listener accepts starts with zero credit issued and the drain flag clear: whatever credit the sender sees comes from a flow this end wrote
 //@@ end
 }
 
@@ -131,7 +132,7 @@ impl LocalSenderLinkAcceptor {
         r is Ok ==> registered(r->Ok_0.inner.link.output_handle->Some_0)->Sender_flow_state.notifier.id() == r->Ok_0.inner.link.flow_state.notifier.id(),   // [C08.wiring.grant-wakes-this-links-waiter] (listener)
         r is Ok ==> registered(r->Ok_0.inner.link.output_handle->Some_0)->Sender_receiver_settle_mode == remote_attach.rcv_settle_mode,            // [C02.wiring.sender-relay-knows-the-receivers-settle-mode] (listener) the relay of a sending link echoes a settling disposition exactly when the RECEIVER settles second: it is given the mode the peer's attach announced
         r is Ok ==> r->Ok_0.inner.link.flow_state.state.init().link_credit == 0 && r->Ok_0.inner.link.flow_state.state.init().delivery_count == self.initial_delivery_count
-            && r->Ok_0.inner.link.flow_state.state.init().initial_delivery_count == self.initial_delivery_count,                                  // [C08.wiring.initial-flow-state] (listener) no credit until the receiver grants some
+            && r->Ok_0.inner.link.flow_state.state.init().initial_delivery_count == self.initial_delivery_count && !r->Ok_0.inner.link.flow_state.state.init().drain,                                  // [C08.wiring.initial-flow-state] (listener) no credit until the receiver grants some
         r is Ok ==> r->Ok_0.inner.link.session_stop_reason.id() == old(session).stop.id(),                                                        // [C14.wiring.link-reads-the-sessions-stop-reason] (listener)
         r is Ok ==> r->Ok_0.inner.outgoing.id() == old(session).outgoing.id() && r->Ok_0.inner.session.id() == old(session).control.id(),        // [C13.wiring.link-writes-to-its-session] (listener)
 //@@ end
